@@ -12,17 +12,21 @@ RULE = ("TLC enumerates the whole structural lattice (per variable: box kind fre
         "with at least one finite positive breakpoint")
 
 
+TIES3 = {"kinds": ["lo", "box"], "xs": [0, 1, 2], "g": "nz"}   # n = 3 slice rich in tied breakpoints
+
+
 def lattices(ctx):
     if ctx.quick:
-        return [(1, [0, 1, 2, 3]), (2, [0, 1, 3])]
-    return [(1, [0, 1, 2, 3]), (2, [0, 1, 2, 3, 4]), (3, [0, 1])]
+        return [(1, [0, 1, 2, 3], None), (2, [0, 1, 3], None), (3, [1], TIES3)]
+    return [(1, [0, 1, 2, 3], None), (2, [0, 1, 2, 3, 4], None), (3, [0, 1, 2, 3], TIES3),
+            (3, [1], {"kinds": ["free", "lo", "hi", "box", "fix"], "xs": [0, 1, 3], "g": "full"})]
 
 
 def run(ctx, which="cauchy"):
     total = nontrivial = 0
     verdicts = {}
-    for n, mems in lattices(ctx):
-        recs = lattice.enumerate_lattice(ctx, n, mems, shards=(1 if n == 1 else 16 if n == 2 else 64))
+    for n, mems, sub in lattices(ctx):
+        recs = lattice.enumerate_lattice(ctx, n, mems, shards=(1 if n == 1 else 16 if n == 2 else 24), sub=sub)
         res = lattice.replay(recs, which)
         total += len(recs)
         for rec, (v, det) in zip(recs, res):
